@@ -2,7 +2,7 @@ META = dict(
     level='exploration',
     rule=('cases = (operator, left wrapper<A>, right wrapper<B>, a, b); 18 binary operators, 10 compound assignments, unary - ~ !, pre/post ++/--; '
           'wrappers {tainted, tainted_volatile, plain} x {plain, tainted, tainted_volatile}; (A,B) over 8 integer types (11 thorough) plus float/double/int '
-          'mixes; all 65536 value pairs when both operands are 8-bit, a ~25-value boundary set per operand otherwise; pairs for which the plain expression '
+          'mixes, and a plain unscoped enumeration as the non-wrapped operand of + - and the six comparisons; all 65536 value pairs when both operands are 8-bit, a ~25-value boundary set per operand otherwise; pairs for which the plain expression '
           'is undefined (signed overflow, /0, MIN/-1, bad shift) are removed by a 128-bit reference predicate. Oracle: decltype(wrapped) is the documented '
           'wrapper over decltype(plain), value bit-identical, operands updated like the plain operator (a tainted_volatile update may abort when the plain '
           'result does not fit the lp32 guest cell). non-trivial = an operand outside [0,127] or an inc/dec form.'),
@@ -57,7 +57,7 @@ def build_with_fallback(ctx, specs):
                 bins[n] = b
             else:
                 lost.add('%s in %s' % (op, parent))
-    if failed and not any(k for k in bins if '_op' in k):
+    if failed and not bins:
         raise CannotDecide('no operator instantiation of C16 builds against ' + ctx.repo)
     return bins, lost
 
@@ -75,6 +75,10 @@ def run(ctx):
                 d.append('C16_WITH_NOT')
             specs.append((n, 'c16.cpp', dict(opt='-O0', defs=d)))
             names.append(n)
+    # a plain unscoped enumeration as the non-wrapped operand (two TUs: arithmetic, comparisons)
+    for k in (1, 2):
+        specs.append(('c16_enum%d' % k, 'c16.cpp', dict(opt='-O0', defs=['C16_A=int', 'C16_BS=int', 'C16_ENUM=%d' % k])))
+        names.append('c16_enum%d' % k)
     for a, bs in (('float', 'float, double, int'), ('double', 'float, double, long'), ('int', 'float, double'), ('unsigned long long', 'float, double')):
         n = 'c16_f_%s' % a.replace(' ', '')
         specs.append((n, 'c16.cpp', dict(opt='-O0', defs=['C16_A=' + a, 'C16_BS=' + bs])))
